@@ -538,9 +538,11 @@ def rule_V(ctx):
     class TrackS(orders.PyStub):
         isa = ('Track',)
 
-        def __init__(self, ys):
+        def __init__(self, ys, feats=None):
             self.n = len(ys)
             self.feats = {'y': list(ys)}
+            self.feats.update({k: list(v) for k, v in (feats or {}).items()})
+            self.obs = [_ObsS() for _ in range(self.n)]
 
         def __len__(self):
             return self.n
@@ -575,18 +577,49 @@ def rule_V(ctx):
         def __getitem__(self, key):
             if isinstance(key, tuple):
                 return self.feats[key[0]][key[1]]
+            if isinstance(key, int):
+                return self.obs[key]
             return list(self.feats[key])
+
+        def getObs(self, k):
+            return self.obs[k]
+
+    class _ObsS(orders.PyStub):
+        isa = ('Obs',)
+
+        def __init__(self):
+            self.position = None
+
+    # positions built from observed features: an opaque value recording its arguments
+    fn['makeCoords'] = lambda x, y, z, srid: ('position', x, y, z, srid)
+    MODES = {k: (v.value if isinstance(v, ast.Constant) else None) for k, v in mod.consts.items() if k.startswith('MODE_OBS') or k.startswith('MODE_STATES')}
 
     found = {}
     n_models = [0]
 
-    def decode(sizes, emis, trans, logmode, label, family, reuse=None, stationary=False):
+    def decode(sizes, emis, trans, logmode, label, family, reuse=None, stationary=False, switch=None, obsmode=None):
         """emis[k][i], trans[k][(i, j)] are COSTS (-log likelihood); states of epoch k are named 10*k + i.
-        reuse = (hmm, track) of an earlier decoding: the same objects are given the new model through the setters"""
+        reuse = (hmm, track) of an earlier decoding: the same objects are given the new model through the setters;
+        switch = the value given as the log switch (default: the bool logmode); obsmode = (mode name, observed feature names)"""
         n_models[0] += 1
         T_ = len(sizes)
         states = [[10 * k + i for i in range(sizes[k])] for k in range(T_)]
         ys = ['y%d' % k for k in range(T_)]
+        feats, obsarg, modeval = None, 'y', None
+        if obsmode is not None:
+            mname, names_ = obsmode
+            modeval = MODES.get(mname)
+            if modeval is None:
+                raise shape_error('%s not found in tracklib.algo.dynamics' % mname, f.loc())
+            feats = {nm: ['%s%d' % (nm, k) for k in range(T_)] for nm in names_}
+            obsarg = list(names_)
+            dim = 2 if '2D' in mname and 'OBS' in mname else (3 if '3D' in mname and 'OBS' in mname else 0)
+            ys = []
+            for k in range(T_):
+                vals = [feats[nm][k] for nm in names_]
+                if dim:
+                    vals = [('position', vals[0], vals[1], vals[2] if dim == 3 else 0.0, 'ENU')] + vals[dim:]
+                ys.append(vals[0] if len(vals) == 1 else vals)
 
         def lik(c):
             if logmode:
@@ -609,14 +642,17 @@ def rule_V(ctx):
             return lik(emis[k][s % 10])
         try:
             if reuse is None:
-                hmm = H(S, Q, P, logmode, stationary)
-                t = TrackS(ys)
+                hmm = H(S, Q, P, logmode if switch is None else switch[0], stationary)
+                t = TrackS(ys, feats)
             else:
                 hmm, t = reuse
                 hmm.call('setStates', S)
                 hmm.call('setTransitionModel', Q)
                 hmm.call('setObservationModel', P)
-            hmm.call('estimate', t, 'y', verbose=quiet)
+            if modeval is None:
+                hmm.call('estimate', t, obsarg, verbose=quiet)
+            else:
+                hmm.call('estimate', t, obsarg, mode=modeval, verbose=quiet)
         except orders.Unsupported as ex:
             raise shape_error('HMM.estimate not interpretable: %s' % ex, f.loc())
         except (orders.Raised, ZeroDivisionError, IndexError, KeyError, TypeError, AttributeError, ValueError, OverflowError) as ex:
@@ -693,9 +729,30 @@ def rule_V(ctx):
             if first is not None:
                 decode((2, 2), [[0.9, 0.1], [0.3, 0.6]], [{(0, 0): 2.0, (0, 1): 2.0, (1, 0): 2.0, (1, 1): 0.1}], logmode,
                        'second use of the same decoder and track with other tables (stationarity=%s)' % stat, 'reuse', reuse=first, stationary=stat)
+    # (e) the log switch given as another falsy / truthy value than the bool (0, 1, numpy.bool_ - the result of a numpy test)
+    for sw_label, sw, logmode in (('0', 0, False), ('1', 1, True), ('numpy.bool_(False)', npstub.NpBool(False), False), ('numpy.bool_(True)', npstub.NpBool(True), True)):
+        for target in itertools.product(range(2), repeat=3):
+            emis = [[0.1 if i == target[k] else 2.3 for i in range(2)] for k in range(3)]
+            trans = [{(i, j): (0.1 if (i, j) == (target[k], target[k + 1]) else 2.3) for i in range(2) for j in range(2)} for k in range(2)]
+            decode((2, 2, 2), emis, trans, logmode, 'unique optimum %r, log switch given as %s' % (list(target), sw_label), 'switch kinds', switch=(sw,))
+        # orderings of the four sequence costs (the maximum of the product is not the maximum of the sum of the likelihoods)
+        for o in list(orders.weak_orderings(['00', '01', '10', '11']))[::3]:
+            e0, e1 = [0.3, 1.1], [0.7, 0.2]
+            trans = [{(i, j): 2.0 + 0.8 * o['%d%d' % (i, j)] - e0[i] - e1[j] for i in range(2) for j in range(2)}]
+            decode((2, 2), [e0, e1], trans, logmode, 'ordering of the sequence costs: ' + orders.describe(o) + ', log switch given as %s' % sw_label, 'switch kinds', switch=(sw,))
+    # (f) multi-dimensional observations and the position modes: the observation model receives, at each epoch, the observed
+    #     features of that epoch (the first two / three gathered into a position, the others following)
+    for mname, names_ in (('MODE_OBS_AS_SCALAR', ['a', 'b']), ('MODE_OBS_AS_SCALAR', ['a', 'b', 'c']), ('MODE_OBS_AS_2D_POSITIONS', ['x', 'y']), ('MODE_OBS_AS_2D_POSITIONS', ['x', 'y', 'a']),
+                          ('MODE_OBS_AS_2D_POSITIONS', ['x', 'y', 'a', 'b']), ('MODE_OBS_AS_3D_POSITIONS', ['x', 'y', 'z']), ('MODE_OBS_AS_3D_POSITIONS', ['x', 'y', 'z', 'a']),
+                          ('MODE_OBS_AS_3D_POSITIONS', ['x', 'y', 'z', 'a', 'b']), ('MODE_OBS_AND_STATES_AS_2D_POSITIONS', ['x', 'y', 'a']), ('MODE_OBS_AND_STATES_AS_3D_POSITIONS', ['x', 'y', 'z', 'a']),
+                          ('MODE_STATES_AS_2D_POSITIONS', ['a', 'b', 'c']), ('MODE_STATES_AS_3D_POSITIONS', ['a', 'b', 'c', 'd'])):
+        for target in ((0, 1, 1), (1, 0, 1)):
+            emis = [[0.1 if i == target[k] else 2.3 for i in range(2)] for k in range(3)]
+            trans = [{(i, j): (0.1 if (i, j) == (target[k], target[k + 1]) else 2.3) for i in range(2) for j in range(2)} for k in range(2)]
+            decode((2, 2, 2), emis, trans, False, 'unique optimum %r, observations %r in mode %s' % (list(target), names_, mname), 'observation modes', obsmode=(mname, names_))
     for (family, key), (desc, wit) in sorted(found.items()):
         ctx.violation('C09.V', f, desc, wit, node=f.node, key='%s:%s' % (family, key))
-    for family in ('orderings', 'unique', 'zeros and ones', 'reuse'):
+    for family in ('orderings', 'unique', 'zeros and ones', 'reuse', 'switch kinds', 'observation modes'):
         if not any(f_ == family for f_, _ in found):
             ctx.ok('C09.V', f, 'decoded sequence = an optimum of the enumeration, plain and log mode (%s)' % family, node=f.node)
     ctx.extra['C09.V models'] = n_models[0]
